@@ -369,7 +369,7 @@ namespace AIToolbox::POMDP {
                 // We have already used depth + 1 of the maxDepth_ steps; as when
                 // descending, we stop at the horizon and at terminal states.
                 if ( depth + 1 < maxDepth_ && !model_.isTerminal(s1) )
-                    futureRew = rollout(model_, s1, maxDepth_ - depth - 1, rand_);
+                    futureRew = MDP::rollout(model_, s1, maxDepth_ - depth - 1, rand_);
             }
             else {
                 ot->second.belief.push_back(s1);
